@@ -18,11 +18,13 @@ import (
 	"encoding/hex"
 	"fmt"
 	"math/big"
+	"time"
 
 	"github.com/btcsuite/btcd/btcec/v2"
 	"gitlab.com/aquachain/aquachain/common"
 	"gitlab.com/aquachain/aquachain/common/log"
 	"gitlab.com/aquachain/aquachain/core/types"
+	"gitlab.com/aquachain/aquachain/crypto"
 	"gitlab.com/aquachain/aquachain/rlp"
 	"verif/internal/fw"
 	"verif/internal/ref/refsig"
@@ -40,9 +42,12 @@ func init() {
 			"and at least 40 mutants were decided; distinct = signed transaction hash. " +
 			"leg accept: a funded key signs a valid transfer on a small in-memory chain (chain ids 3, 61717561, 2^31+7, 2^64+1); every hostile variant goes to a fresh TxPool.AddRemote and, inside a re-built block, to InsertChain; then the original must be accepted by both.",
 		Legs: func(tier string) []fw.Leg {
+			// generous watchdogs: the machine may be shared; firing is inconclusive
 			return []fw.Leg{
-				{Name: "sign", Variant: "plain", Batches: 16},
-				{Name: "accept", Variant: "plain", Batches: 8},
+				// the workload is single-threaded and allocation-heavy (big.Int): a small
+				// GOMAXPROCS and a lazy GC roughly halve its CPU cost
+				{Name: "sign", Variant: "plain", Batches: 16, Timeout: 6 * time.Hour, Env: []string{"GOMAXPROCS=2", "GOGC=400"}},
+				{Name: "accept", Variant: "plain", Batches: 8, Timeout: 6 * time.Hour, Env: []string{"GOMAXPROCS=4", "GOGC=400"}},
 			}
 		},
 		Run: run,
@@ -53,7 +58,7 @@ func init() {
 				"key_boundary_scalar": 16, "refsigned_attributed": 500,
 				"signature_verified_by_reference": 500,
 				"field_mutants": 30000, "mutant_rejected": 5000, "mutant_other_address": 5000,
-				"bitflip_decoded": 50000, "lattice_probes": 50000,
+				"bitflip_decoded": 50000, "bitflip_all_bits_cases": 100, "lattice_probes": 50000,
 				"must_reject_probes": 20000,
 				"high_s_probed_homestead": 100, "high_s_probed_eip155_protected": 100, "high_s_twin_frontier_same_sender": 50,
 				"foreign_signer_queries": 2000, "foreign_chain_probed": 1000,
@@ -213,8 +218,9 @@ func demandFor(s sgn, v, r, sv *big.Int) demand {
 		return d
 	}
 	if s.Kind != kEIP155 && prot {
-		// Frontier/Homestead rules know V = 27/28 only
-		d.reject, d.clause, d.cause = true, "out_of_range_signature_accepted", "v_not_27_28:"+s.Kind
+		// Frontier/Homestead rules know V = 27/28 only: a replay-protected
+		// transaction has no sender under them
+		d.reject, d.clause, d.cause = true, "foreign_chain_attribution", "protected_under_"+s.Kind
 		return d
 	}
 	if s.Kind == kEIP155 && prot && cid.Cmp(s.Chain) != 0 {
@@ -257,6 +263,8 @@ func sameSignature(s sgn, orig *refsig.Tx, v, r, sv *big.Int) bool {
 	}
 	return false
 }
+
+func cryptoAddress(k *btcec.PrivateKey) [20]byte { return crypto.PubkeyToAddress(k.PubKey()) }
 
 func addrHex(a [20]byte) string { return hx(a[:]) }
 
